@@ -35,7 +35,9 @@ def gen_cases(tier, seed):
                     L = float(rng.uniform(3.0, 6.0))
                     t0 = float(rng.uniform(-4, 4))
                     nev = int(rng.integers(1, 7))
-                    cases.append(dict(kind="random", method=name, direction=d, dense=dense, t0=t0, tf=t0 + d * L,
+                    rdt = rng.random()
+                    dtn = "float64" if rdt < 0.7 else ("float32" if rdt < 0.85 or not info["explicit"] else "longdouble")
+                    cases.append(dict(kind="random", method=name, direction=d, dense=dense, t0=t0, tf=t0 + d * L, dtype=dtn,
                                       nsteps=float(rng.uniform(25, 60)) * (12 if info["order"] <= 2 and not info["adaptive"] else 1),
                                       nev=nev, pseed=int(rng.integers(1 << 30)), cost=(2 if info["explicit"] else 14) * (1 + nev / 3.0)))
     # derivative-dependent events on SMALL steps: the slope of the step interpolant carries rounding noise ~eps|y|/h, which is what the
@@ -183,7 +185,8 @@ def run_case(spec):
     dim = 2
     prob = Manufactured(dim, spec["pseed"], direction=d, freq=(1.0, 3.0))
     rng = rng_for(702, spec["pseed"])
-    dt_ = np.dtype("float64")
+    from vf.problems import dtype_of
+    dt_ = dtype_of(spec.get("dtype", "float64"))
     eps = float(np.finfo(dt_).eps)
     evspecs = []
     if spec["kind"] == "boundary":
@@ -218,7 +221,8 @@ def run_case(spec):
         return prob.rhs(t, y)
     y0 = prob.ystar(t0).astype(dt_)
     L = abs(tf - t0)
-    system = sysrun.make_system(f, y0, t0, tf, L / spec["nsteps"], info["cls"], dense=spec["dense"], rtol=1e-6, atol=1e-8)
+    tolkw = dict(rtol=1e-6, atol=1e-8) if spec.get("dtype", "float64") != "float32" else dict(rtol=1e-3, atol=1e-4)
+    system = sysrun.make_system(f, y0, t0, tf, dt_.type(L / spec["nsteps"]), info["cls"], dense=spec["dense"], **tolkw)
     trace = DetectionTrace()
     marks = []   # (len(events), len(system)) after every recorded step
 
@@ -236,6 +240,8 @@ def run_case(spec):
     y = np.asarray(system.y)
     evs = list(system.events)
     rec.nontrivial = len(evs) > 0
+    if spec.get("dtype", "float64") != "float64":
+        rec.bump("events_in_" + spec["dtype"], len(evs))
     idx_of = {id(e): j for j, e in enumerate(events)}
     # ---- node / interpolation error of the run (what the located roots can inherit)
     node = max(float(np.max(np.abs(y[k].astype(np.longdouble) - prob.ystar(float(t[k]))))) for k in range(len(t)))
